@@ -103,6 +103,28 @@ def judge(ctx, c, answers):
         GambaTools.pda_epsilon_closure_max_iterations = old
     if enc.canon_pda(P, drop_empty=False) != before:
         ctx.violation('argument-mutated', {'case': c})
+    if c['P']['delta'] and len(c['words']) <= 16:
+        # history: the same PDA object after a legal in-place edit of its transition table must answer like a fresh equal object
+        import copy, random
+        r = random.Random(core.digest(c['P']))
+        spec2 = copy.deepcopy(c['P'])
+        k = r.randrange(len(spec2['delta']))
+        p_, a_, u_, T_ = spec2['delta'].pop(k)
+        del P.delta[p_, a_, u_]
+        P2 = enc.build_pda(spec2)
+        GambaTools.pda_epsilon_closure_max_iterations = 40
+        try:
+            for w in c['words']:
+                if exact_run(P2, w, 40) is None:
+                    continue
+                g1 = call(PA.pda_accepts_word, P, w, limit=20)
+                exp = oracles.pda_accepts(P2, w)
+                if g1.get('ok') != exp:
+                    ctx.violation('stale-result-after-argument-edit', {'case': dict(c, words=[w], limits=[40]), 'removed': [p_, a_, u_, T_],
+                                                                       'on_edited_object': g1, 'exact': exp})
+        finally:
+            GambaTools.pda_epsilon_closure_max_iterations = old
+        ctx.count('edit-history')
     ctx.record('pda/' + core.digest(c), res)
     eps = c['P']['eps']
     nt = any(a == eps for _, a, _, _ in c['P']['delta']) and any(u != eps or any(v != eps for _, v in T) for _, _, u, T in c['P']['delta'])
